@@ -171,12 +171,15 @@ class Report(Partial):
         os.makedirs(d, exist_ok=True)
         safe = "".join(ch if ch.isalnum() or ch in "-_." else "_" for ch in v["key"])[:80]
         path = os.path.join(d, f"{idx:02d}_{safe}.py")
+        hs = os.environ.get("PYTHONHASHSEED")
         header = (
             "# Replay of a counterexample found by /verif against the real code.\n"
             f"# property={self.pid} key={v['key']}\n# {v['what']}\n"
             "# exit 1 = violation reproduces on the current /repo tree, 0 = it does not.\n"
             "import sys, os\n"
-            f"sys.path.insert(0, {VERIF!r})\n"
+            + (f"if os.environ.get('PYTHONHASHSEED') != {hs!r}:  # set iteration order is part of the counterexample\n"
+               f"    os.execve(sys.executable, [sys.executable] + sys.argv, dict(os.environ, PYTHONHASHSEED={hs!r}))\n" if hs is not None else "")
+            + f"sys.path.insert(0, {VERIF!r})\n"
             "from vlib import env; env.setup()\n"
         )
         with open(path, "w") as f:
@@ -222,6 +225,20 @@ class Report(Partial):
                 f"HARNESS-ERROR property={self.pid}: counterexample {v['key']} did not "
                 f"reproduce (rc={v['replay_rc']}): {v['what']}\n{v.get('replay_out','')}"
             )
+        # violations found (and replayed) by child runs under other hash seeds
+        seen_keys = {v["key"] for v in real} | {v["key"] for v in known_hit}
+        for line, keyline in getattr(self, "child_violations", []):
+            key = keyline.strip()[4:].split(": ")[0] if keyline.strip().startswith("key=") else line
+            if key in seen_keys:
+                continue
+            seen_keys.add(key)
+            if key in known:
+                print(f"KNOWN-FINDING: property={self.pid} {key}: (found under another PYTHONHASHSEED) {keyline.strip()[:300]}")
+                known_hit.append({"key": key, "what": keyline})
+            else:
+                print(line)
+                print(keyline)
+                real.append({"key": key, "what": keyline})
         if self.canaries_run > 0 and self.canaries_fired == 0:
             self.errors.append("no canary fired: the harness may be vacuous")
         for e in self.errors:
